@@ -138,6 +138,14 @@ class SigmaCollection:
             ):  # Included rules are already parsed, skip collection action processing
                 parsed_rules.append(rule)
                 rule.source = source
+            elif not isinstance(rule, dict):
+                exception = SigmaCollectionError(
+                    f"Rule { i } in Sigma collection is not a map", source=source
+                )
+                if collect_errors:
+                    errors.append(exception)
+                else:
+                    raise exception
             else:
                 action = rule.get("action")
                 if action is None:  # no action defined
